@@ -3969,7 +3969,9 @@ impl KotoVm {
     }
 
     fn new_frame_base(&self) -> Result<u8> {
-        u8::try_from(self.registers.len() - self.register_base)
+        // The call's arguments are placed in the registers that follow the frame base
+        // (`frame_base + 1` and so on), the headroom of `next_register` leaves room for them.
+        self.next_register()
             .map_err(|_| "Overflow of the current frame's register stack".into())
     }
 
@@ -4496,6 +4498,7 @@ mod macros {
 
             // Call the map's op function
             let old_frame_count = $self.call_stack.len();
+            let old_register_count = $self.registers.len();
             $self.call_overridden_op_2(
                 Some($result_register),
                 $lhs.clone(),
@@ -4510,11 +4513,18 @@ mod macros {
             // Execute the function immediately so that we can check for `koto.unimplemented` errors
             // - Enable the execution barrier on the function's frame so errors aren't propagated
             $self.frame_mut().execution_barrier = true;
-            match $self.execute_instructions() {
+            let result = $self.execute_instructions();
+            // A frame that's popped with its execution barrier set leaves the registers of the call
+            // (the instance and the argument) on the stack, discard them here.
+            if result.is_ok() {
+                $self.registers.truncate(old_register_count);
+            }
+            match result {
                 Ok(result) => result,
                 Err(error) => {
                     // Pop the frame given that an error has been thrown
                     $self.pop_frame(KValue::Null)?;
+                    $self.registers.truncate(old_register_count);
                     // Check for a `koto.unimplemented` error
                     let ErrorKind::KotoError { thrown_value, .. } = &error.error else {
                         // A non-unimplemented error was thrown, so propagate it
